@@ -178,7 +178,7 @@ std::string gen_op(Profile &p, const std::vector<std::pair<int, OpK>> &weights) 
     case PUT: return "put " + gen_key(p) + " " + gen_val(p) + sync;
     case DEL: return "del " + gen_key(p) + sync;
     case BATCH: {
-      int n = pick<int>({{6, uni(1, 4)}, {3, uni(5, 12)}, {1, uni(20, 60)}});
+      int n = pick<int>({{6, uni(1, 4)}, {3, uni(5, 12)}, {1, uni(20, 60)}, {1, 0}});   // 0: an empty batch is a legal write (a 12-byte log record)
       std::string s = "batch";
       for (int i = 0; i < n; i++) {
         if (chance(75)) s += " p:" + gen_key(p) + ":" + gen_val(p);
@@ -636,6 +636,7 @@ std::string build_crash_case(const std::string &kind_in) {
     int wput = 42, wdel = 8, wbatch = c04 ? 30 : 12, wflush = 8, wcr = 6, wcomp = 1, wreopen = c17 ? 14 : 6, wfill = 3;
     int total = wput + wdel + wbatch + wflush + wcr + wcomp + wreopen + wfill;
     c = uni(0, total - 1);
+    if (chance(3)) lines.push_back(std::string("emptywrite") + sync);
     if ((c -= wput) < 0) lines.push_back("put " + gen_key(p) + " " + crash_val(p, c04) + sync);
     else if ((c -= wdel) < 0) lines.push_back("del " + gen_key(p) + sync);
     else if ((c -= wbatch) < 0) {
@@ -871,6 +872,11 @@ std::string build_conc_case(const std::string &kind_in) {
   }
   // setup: optionally bring the memtable close to its limit / create level-0 pressure
   int sc = uni(0, 99);
+  // "busy writers during a backup" (C20c, after seed C20e): the memtable starts close to its limit and the writers use
+  // large values, so that a memtable switch, the flush, its MANIFEST append and the removal of the old log fall inside
+  // the ldb_backup call of another thread
+  bool c20busy = c20 && chance(45);
+  if (c20busy) sc = 0;
   if (sc < (c09 ? 55 : 30)) lines.push_back(fmt("fill 0 %d 1000", uni(50, 62)));
   else if (sc < (c09 ? 80 : 40)) {
     int n = uni(3, c09 ? 11 : 6);
@@ -881,6 +887,7 @@ std::string build_conc_case(const std::string &kind_in) {
   auto val = [&](int t) {
     std::string tok = fmt("tT%dc%d", t, ++counter[t]);
     int c = uni(0, 99);
+    if (c20busy && c < 70) return tok + fmt("+r%d.%d", uni(0, 9999), uni(3000, 12000));
     if (c < 50) return tok;
     if (c < 85) return tok + fmt("+r%d.%d", uni(0, 9999), uni(10, 1500));
     return tok + fmt("+r%d.%d", uni(0, 9999), c09 ? uni(9000, 30000) : uni(3000, 12000));
@@ -899,6 +906,7 @@ std::string build_conc_case(const std::string &kind_in) {
     for (int k = 0; k < nkeys[mid]; k++) lines.push_back(fmt("thread %d put tT%dk%d ", mid, mid, k) + val(mid));
     lines.push_back(fmt("thread %d flush", mid));
   }
+  if (c20busy) lines.push_back(fmt("thread %d backup", uni(0, T - 1)));
   int total = 0;
   std::vector<int> left(T);
   for (int t = 0; t < T; t++) { left[t] = c10 ? uni(10, thorough ? 80 : 40) : uni(2, thorough ? 20 : 8); total += left[t]; }
